@@ -1,8 +1,8 @@
 SPECIFICATION Spec
 CONSTANTS
-  Sessions <- S4
+  Sessions <- P4
   Graphs <- SimGraphs4
-  Depths <- D14
+  Depths <- D13
   Skips <- SimSkips4
   Thoroughs <- BothModes
   KeepHist = TRUE
